@@ -3,3 +3,4 @@ pub mod wire;
 pub mod zone;
 pub mod cache;
 pub mod upstream;
+pub mod resolve;
